@@ -47,6 +47,10 @@ func randCfg(r drv.Rand) worldCfg {
 	c.spare = r.Chance(2, 3)
 	c.cfgStyle = r.IntN(3)
 	c.audHas = r.Chance(1, 3)
+	c.debugLog = r.Chance(1, 3)
+	if r.Chance(1, 3) {
+		c.srvOpt = 1 + r.IntN(3)
+	}
 	if r.Chance(3, 5) { // the signing algorithm of the world's OPs: every supported family, not only the default
 		c.sigAlg = r.IntN(len(sigAlgs))
 	}
@@ -54,7 +58,7 @@ func randCfg(r drv.Rand) worldCfg {
 }
 
 func cfgTags(c worldCfg) []string {
-	return []string{fmt.Sprintf("spare=%v", c.spare), fmt.Sprintf("userEp=%v", c.userEp > 0), fmt.Sprintf("cfgStyle=%d", c.cfgStyle), "alg=" + string(sigAlgs[c.sigAlg])}
+	return []string{fmt.Sprintf("spare=%v", c.spare), fmt.Sprintf("userEp=%v", c.userEp > 0), fmt.Sprintf("cfgStyle=%d", c.cfgStyle), "alg=" + string(sigAlgs[c.sigAlg]), fmt.Sprintf("debugLog=%v", c.debugLog), fmt.Sprintf("srvOpt=%d", c.srvOpt)}
 }
 
 var roptVerOpts = roptd{"RVerifierOpts 5", -1, func(w *world) rp.Option { return rp.WithVerifierOpts(w.rpVerOpts...) }}
